@@ -406,6 +406,20 @@ def oracle(case):
 				return {'what': 'decompress of a body supplied by %s raised %s: %s' % (how, exc_name(e), e), 'case': describe(case), 'finding': None}
 			if got != content:
 				return {'what': 'decompress of a body supplied by %s returned %d octets for %d' % (how, len(got), len(content)), 'case': describe(case), 'finding': None}
+		# compressing a body that is marked for chunked transfer: the stored content is the coded stream, the chunk framing is added on the wire
+		if content:
+			try:
+				z = make_body(kind, pieces)
+				z.chunked = True
+				z.content_encoding = coding
+				z.compress()
+				z.chunked = False
+				stored = bytes(z)
+				okz = zlib.decompress(stored, 31 if coding == 'gzip' else 15) == content
+			except Exception as e:
+				return {'what': 'compress() of a body marked chunked: %s: %s' % (exc_name(e), e), 'case': describe(case), 'finding': None}
+			if not okz:
+				return {'what': 'compress() of a body marked chunked stores octets that are no %s stream of the content' % coding, 'case': describe(case), 'finding': None}
 		# one Body object whose coding is changed: what it puts on the wire is a stream of the coding it announces at that moment
 		if kind in ('bytes', 'list') and content:
 			other = 'deflate' if coding == 'gzip' else 'gzip'
